@@ -349,7 +349,8 @@ class FactoredInference:
         """
         eigs = { cl : 0.0 for cl in self.model.cliques }
         for Q, _, noise, proj in measurements:
-            for cl in self.model.cliques:
+            # assign each measurement to the same clique as _setup does (smallest containing clique)
+            for cl in sorted(self.model.cliques, key=self.model.domain.size):
                 if set(proj) <= set(cl):
                     n = self.domain.size(cl)
                     p = self.domain.size(proj)
